@@ -83,6 +83,9 @@ type shapeGen struct {
 	extra   map[string]int // registered infix operators: symbol -> level (C05)
 	preOps  []string       // registered prefix operators
 	postOps []string       // registered postfix operators
+	// literals that contain a line break (backtick strings, strings with a line
+	// continuation): a line break INSIDE a token is not a line break BEFORE it
+	multiline bool
 }
 
 func (g *shapeGen) lvalue(d int) *shape {
@@ -136,8 +139,14 @@ func (g *shapeGen) literal() *shape {
 	case 0:
 		return sh("num", pick(r, []string{"0", "1", "42", "3.14", "1e3", "0xFF", "0b101", "0o17", "2.5e-3", "100"}))
 	case 1:
+		if g.multiline && r.chance(1, 4) {
+			return sh("str", pick(r, []string{"\"a\\\nb\"", "'c\\\nd'"}))
+		}
 		return sh("str", pick(r, []string{`"s"`, `'t'`, `"a b"`, `'q"q'`, `"it's"`, `"\n"`, `'\x41'`, `""`}))
 	case 2:
+		if g.multiline && r.chance(1, 2) {
+			return sh("raw", pick(r, []string{"`a\nb`", "`\n`", "`x\n\ny`", "`  z\n`"}))
+		}
 		return sh("raw", pick(r, []string{"`r`", "`a b`", "`x\\`y`", "``"}))
 	case 3:
 		return sh("bool", pick(r, []string{"true", "false"}))
